@@ -50,6 +50,8 @@ SUITES = {
     # runs = behaviours, events = depth
     "sim_plain":   ("sim",    "plain", [],                    "debug",   (30, 400), (45, 60)),
     "sim_heap":    ("sim",    "heap",  [],                    "release", (30, 400), (45, 60)),
+    "entry_heap":  ("random", "heap",  ["--entry"],           "debug",   (12, 120), (200, 200)),
+    "entry_plain": ("random", "plain", ["--entry"],           "release", (12, 120), (200, 200)),
     "defects":     ("scripts", None,   [],                    "both",    (1, 1),    (0, 0)),
 }
 
@@ -98,12 +100,12 @@ MC = {
 ALL_MAP = ["core_heap", "core_plain", "core_zst", "rel_heap", "defects"]
 
 PROPS = {
-    "C01": dict(suites=["sim_plain", "sim_heap", "tomb_plain", "tomb_heap", "core_heap", "core_plain", "core_zst", "rel_heap", "rel_plain", "defects"], mc=["Small", "CountR8"]),
+    "C01": dict(suites=["entry_heap", "entry_plain", "sim_plain", "sim_heap", "tomb_plain", "tomb_heap", "core_heap", "core_plain", "core_zst", "rel_heap", "rel_plain", "defects"], mc=["Small", "CountR8"]),
     "C02": dict(suites=["sim_plain", "sim_heap", "big_plain", "big_heap", "big_collide", "tomb_plain", "tomb_heap", "core_plain", "rel_plain", "core_heap", "defects"], mc=["CountR8"]),
     "C03": dict(suites=["sim_plain", "sim_heap", "big_plain", "big_heap", "big_collide", "tomb_plain", "tomb_heap", "core_plain", "core_heap", "rel_plain", "set_heap", "defects"], mc=["Small", "CountR8"]),
     "C04": dict(suites=["sim_plain", "sim_heap", "big_plain", "big_heap", "big_collide", "tomb_plain", "tomb_heap", "core_plain", "rel_plain", "limits_dbg", "limits_rel", "two_heap", "defects"], mc=["Small", "CountR8"], apalache=True),
     "C05": dict(suites=["sim_plain", "sim_heap", "fault_heap", "fault_heap_rel", "tomb_plain", "tomb_heap", "core_heap", "rel_heap", "core_zst", "set_heap", "set_zst", "two_heap", "two_plain_rel", "defects"], mc=["Small", "CountR8"], asan=["two_heap", "two_plain_rel", "core_heap", "fault_heap", "set_heap", "tomb_heap", "defects"]),
-    "C06": dict(suites=["core_heap", "rel_heap", "two_heap", "set_heap", "set_two", "defects"], mc=["Small"]),
+    "C06": dict(suites=["entry_heap", "entry_plain", "core_heap", "rel_heap", "two_heap", "set_heap", "set_two", "defects"], mc=["Small"]),
     # after an injected panic *every* monitor is part of "the map stays memory-safe and self-consistent,
     # later operations behave normally": any failure in these suites counts for C07
     "C07": dict(suites=["fault_heap", "fault_heap_rel", "fault_plain", "fault_two", "fault_set", "fault_zst", "defects"], mc=["Fault"],
@@ -114,7 +116,7 @@ PROPS = {
     # the two-slot suites exist to exercise clone / clone_from followed by divergent histories: there,
     # any failed monitor (a lookup missing in the clone, an effect seen through the other map, ...) is C11's
     "C11": dict(suites=["two_heap", "two_plain_rel", "set_two", "defects"], mc=["CountR8", "Small"], any_monitor=True),
-    "C12": dict(suites=["core_heap", "rel_heap", "core_plain", "core_zst", "defects"], mc=["Small"]),
+    "C12": dict(suites=["entry_heap", "entry_plain", "core_heap", "rel_heap", "core_plain", "core_zst", "defects"], mc=["Small"]),
     "C13": dict(suites=["set_heap", "set_two", "set_zst"], mc=["Small"]),
     "C14": dict(suites=["meta_heap", "meta_plain", "meta_set", "meta_zst"], mc=["Small"],
                 monitors=["eq_is_content_equality", "debug_shows_contents", "lookup_result", "set_contains_result",
